@@ -77,6 +77,15 @@ def main():
         if "\r" in text:
             tsig = sig(XonshParser.parse_string, text.replace("\r\n", "\n").replace("\r", "\n"), mode="exec")
         out["cases"].append({"name": n, "file": fsig, "string": ssig, "translated": tsig, "opened": seen})
+    # second pass: one path whose content is rewritten before every parse (an edited script parsed again in the same process):
+    # the file entry point must see the current content, exactly as the fresh path did
+    same = os.path.join(casedir, "_same_path.xsh")
+    for n, c in zip(names, out["cases"]):
+        with builtins.open(os.path.join(casedir, n), "rb") as f:
+            data = f.read()
+        with builtins.open(same, "wb") as f:
+            f.write(data)
+        c["rewritten"] = sig(XonshParser.parse_file, pathlib.Path(same))
     sys.stdout.write(json.dumps(out, ensure_ascii=True))
 
 
